@@ -135,6 +135,15 @@ def ops : List (String × Op) := [
           if !lettersOk h.letters then "n/a"
           else verdictC (okChunkProtein h.letters x h.win a.toOption)
                  (internalOr a (chunkCodonsClass x h.win a.toOption.isSome)))),
+  ("kwcodons", do
+      let h ← pHead; let lo ← pNat; let hi ← pNat; pArrow; let a ← pAns3 pLocs
+      pure (withScope h fun _ =>
+        match h.desc.coding with
+        | none => "n/a"
+        | some x =>
+          if hi ≤ lo ∨ hi > h.letters.length then "n/a"     -- empty window: C05 (F-C05d); past the chromosome: refused
+          else verdictC (okChunkWindowCodons x h.win lo hi a.toOption)
+                 (internalOr a (chunkWindowClass x h.win lo hi a.toOption.isSome)))),
   ("kframes", do
       let h ← pHead; pArrow; let a ← pAns3 (pRest pNat)
       pure (withScope h fun _ =>
